@@ -132,8 +132,10 @@ class OrderedSamples:
         self.log_q = np.insert(self.log_q, indices, log_q, axis=0)
 
         if self.strict_threshold:
-            n = np.argmax(
-                self.samples["logL"] >= self.log_likelihood_threshold
+            # Samples are sorted, so this is the number of samples below the
+            # threshold (also when every sample is below it)
+            n = np.searchsorted(
+                self.samples["logL"], self.log_likelihood_threshold
             )
             indices = np.arange(len(self.samples))
             self.nested_samples_indices = indices[:n]
@@ -191,8 +193,12 @@ class OrderedSamples:
             self.add_to_nested_samples(self.live_points_indices)
             self.live_points_indices = None
         else:
-            n = np.argmax(
-                self.live_points["logL"] >= self.log_likelihood_threshold
+            # Live points are sorted, so this is the number of live points
+            # below the threshold (also when every live point is below it)
+            n = int(
+                np.searchsorted(
+                    self.live_points["logL"], self.log_likelihood_threshold
+                )
             )
             self.add_to_nested_samples(self.live_points_indices[:n])
             self.live_points_indices = np.delete(
